@@ -15,7 +15,7 @@ def run(c, a):
     # domain-shaped argument lists of the collection functions (C13Gen) as further concrete bases
     from checks.c13 import FNS
     jobs, outs = [], []
-    for fn in FNS[:-2]:
+    for fn in FNS[:-1]:
         out = c.path("c13wvec-%s.ndjson" % fn)
         jobs.append(("C13Gen", {"VFN": fn, "VMODE": "weak", "VTIER": c.tier, "VOUT": out}))
         outs.append(out)
